@@ -192,7 +192,7 @@ def check_c39(ctx):
                 cases.append({"seq": c["seq"], "var": rnd.randint(1, 1 << 30)})
     g2 = dict(SIM_CONSTS, MAXWARM=5)
     ctx.cov["constants"]["Gen_Frame_simulate"] = g2
-    sim = gen_frames(ctx, g2, mode="sim", num=150 if q else 3000, depth=9, timeout=2400)
+    sim = gen_frames(ctx, g2, mode="sim", num=150 if q else 2000, depth=9, timeout=2400)
     for c in sim:
         c["var"] = rnd.randint(1, 1 << 30)
     cases += sim
@@ -330,11 +330,13 @@ def gen_conn(ctx, defines, mode="mc", num=0, depth=0, timeout=2400):
 
 def check_c40(ctx):
     q = ctx.tier == "quick"
-    mc = conn_consts([1, 2, 3], [0, U, 5 * U], [U, MAXD], [0, 4 * U], [5 * U], 4 if q else 6)
+    mc = conn_consts([1, 2, 3], [0, U, 5 * U], [U, MAXD], [0, 4 * U], [5 * U], 4) if q else \
+        conn_consts([1, 2, 3], [0, U, 2 * U, 5 * U], [U // 2, MAXD], [0, U, 4 * U], [U, 5 * U], 5)
     ctx.cov["constants"]["MC_Conn"] = mc
     ctx.tlc_must_pass(SPEC, "Conn", "MC_Conn.cfg", defines=mc, timeout=3000)
     cases = []
-    g1 = conn_consts([1, 2, 3], [0, U, 2 * U, 5 * U], [U, MAXD], [0, U, 4 * U], [U, 5 * U], 2 if q else 3, noise=9)
+    g1 = conn_consts([1, 2, 3], [0, U, 2 * U, 5 * U], [U, MAXD], [0, U, 4 * U], [U, 5 * U], 2, noise=9) if q else \
+        conn_consts([1, 2, 3], [0, U, 5 * U], [U, MAXD], [0, 4 * U], [5 * U], 3, noise=1)
     ctx.cov["constants"]["Gen_Conn_exhaustive"] = g1
     ex = gen_conn(ctx, g1)
     # one stream, every script: reaches negative send windows, blocked writers, SETTINGS changes
@@ -346,7 +348,7 @@ def check_c40(ctx):
     flow = conn_consts([1, 3], [U, 3 * U], [U // 2, U, MAXD], [0, 4 * U], [5 * U], 16, noise=0)
     ctx.cov["constants"]["Gen_Conn_sim_broad"] = broad
     ctx.cov["constants"]["Gen_Conn_sim_flow"] = flow
-    nsim = 250 if q else 6000
+    nsim = 250 if q else 4000
     s1 = gen_conn(ctx, broad, mode="sim", num=nsim, depth=18)
     s2 = gen_conn(ctx, flow, mode="sim", num=nsim, depth=20)
     cases += s1 + s2
